@@ -1263,7 +1263,7 @@ func (w *c16World) enabled() []c16Event {
 		}
 	}
 	for s := 0; s < k; s++ {
-		if en := w.model[w.e.subjects[s].did]; en != nil && en.Kind == "reg" {
+		if en := w.model[w.e.subjects[s].did]; en != nil && en.Kind == "reg" && !(w.cfg.Validation && w.cfg.Small && !w.e.r.Thorough()) {
 			evs = append(evs, c16Event{Op: "retract", S: s})
 		}
 	}
@@ -1876,7 +1876,9 @@ func (w *c16World) judge() (selfLoops int) {
 			}
 		}
 	}
-	selfLoops += w.restartChecks()
+	if !w.cfg.Small { // the small configurations leave restarts to the main one
+		selfLoops += w.restartChecks()
+	}
 	if !w.dirty {
 		w.fairSuffix() // runs on the restarted server and client: every clause simply continues across a restart
 	}
@@ -1888,7 +1890,7 @@ func c16Configs(thorough bool) []c16Config {
 		return []c16Config{
 			{Name: "full-k2", K: 2, Depth: 4, Split: 2, Short: true, Inject: true, InjectS: 2, Replay: true, Defects: true, LeafLight: true},
 			{Name: "validation-k2", K: 2, Depth: 4, Split: 2, Inject: true, InjectS: 2, Small: true, Validation: true},
-			{Name: "services-k2", K: 2, Depth: 4, Split: 2, Small: true, TwoServices: true},
+			{Name: "services-k2", K: 2, Depth: 3, Split: 2, Small: true, TwoServices: true},
 		}
 	}
 	return []c16Config{
